@@ -287,3 +287,71 @@ def check_C10(ctx, replay=None):
 
 def check_C11(ctx, replay=None):
     return _replication(ctx, "C11")
+
+
+def check_C09(ctx, replay=None):
+    import os
+    import shutil
+    quick = ctx.quick()
+    for cfg in ("MCSubscription.cfg", "MCSubscriptionStream.cfg", "MCSubscriptionB2.cfg"):
+        c = cfg if quick else core.make_cfg(ctx, cfg, RingCap=2, Window=2)
+        ex = run_tlc(ctx, "MCSubscription", c, workers=8, timeout=1800, tags=())
+        core.require_actions(ex, ["Confirm", "Broadcast", "HistOpen", "HistBatch", "HistCommit", "LiveRecv", "Lagged", "Ack"], cfg)
+        _tlc_must_hold(ctx, ex, "c09:tlc-invariant")
+    for cfg in ("MCSubscriptionDevBreak.cfg", "MCSubscriptionDevBcast.cfg"):
+        dv = run_tlc(ctx, "MCSubscription", cfg, workers=4, timeout=600, tags=(), expect_error=True)
+        if dv.ok:
+            raise core.ToolError("specification self-test failed: %s should violate an invariant" % cfg)
+    binary = cargo_build(ctx, "h-cluster")
+    trace = ctx.path("subs-trace.ndjson")
+    hr = run_harness(ctx, binary, ["subs", trace], timeout=6000)
+    for v in hr.violations:
+        add_violation(ctx, v["key"], v["detail"], v["replay"])
+    nlines = sum(1 for _ in open(trace))
+    res = run_tlc(ctx, "TraceSub", "TraceSub.cfg", workers=1, deque=True, timeout=1800, xmx="6g", env={"TRACE": trace},
+                  tags=(), coverage=False, expect_error=True)
+    accepted = res.ok
+    if not accepted:
+        text = open(res.log, errors="replace").read()
+        m = re.search(r'<<"TRACE_REJECTED_AT", (\d+), (".*")>>', text)
+        info = {"tlc_error": res.error}
+        if m:
+            info["line"] = int(m.group(1))
+            try:
+                info["event"] = json.loads(json.loads(m.group(2)))
+            except Exception:
+                info["event"] = m.group(2)
+            # which scenario the rejected line belongs to
+            lines = open(trace).read().splitlines()
+            for ln in reversed(lines[: info["line"]]):
+                d = json.loads(ln)
+                if d.get("e") == "start":
+                    info["scenario"] = d["scenario"]
+                    break
+        keep = os.path.join(core.REPLAYS, "C09-trace-%d.ndjson" % ctx.seed)
+        os.makedirs(core.REPLAYS, exist_ok=True)
+        shutil.copy(trace, keep)
+        info["trace"] = keep
+        ev = info.get("event", {})
+        what = "rest" if isinstance(ev, dict) and ev.get("e") == "rest" else "record"
+        add_violation(ctx, "c09:trace-rejected:%s" % what, info, {"trace": keep, "line": info.get("line")})
+    cov = {
+        "states": sum(r.distinct for r in ctx.tlc_runs), "transitions": sum(r.generated for r in ctx.tlc_runs),
+        "traces_validated_against_impl": hr.stats.get("scenarios", 0), "samples": hr.stats.get("samples", []),
+        "evaluations": hr.stats["evaluations"], "distinct_nontrivial": hr.stats["distinct_classes"],
+        "trace_lines_validated": nlines, "trace_accepted": accepted, "records_delivered": hr.stats.get("records"),
+        "rule": "Subscription.tla (watermark advance and broadcast as separate steps, bounded ring with lag, history read in "
+                "batches with the stop at the first unconfirmed commit, hand-over to the live ring with de-duplication, "
+                "acknowledgement window) is explored exhaustively for partition and stream matchers, batch sizes 1-2, ring 2, window "
+                "2 with InOrderNoGap, OnlyConfirmed, WindowRespected, CompleteAtRest; two named deviations must violate them. "
+                "Binding: real Subscribe on the real ClusterActor (rf 3) for Partition / Partitions / Stream / Streams matchers, "
+                "start positions and windows; events are on disk unconfirmed and are confirmed through the real ConfirmTransaction "
+                "handler while the subscriber receives and acknowledges; histories longer than one batch are read with the "
+                "subscription task parked (hook) at its first / second batch while everything is confirmed. The recorded trace "
+                "(confirmations issued, records received with cursor, acknowledgements, rest) is validated by TLC against "
+                "TraceSub.tla, the observable projection of the specification. distinct_nontrivial = (matcher, parked batch, long "
+                "history) classes.",
+    }
+    return finish(ctx, "model_checking", cov,
+                  ["a record must be below the watermark implied by the confirmations the harness had issued when it received it",
+                   "single process: confirmations reach the node through ConfirmTransaction (the replica path) only"])
